@@ -311,6 +311,31 @@ def i7(ctx):
         b = C.unwrap_delegation(crate, b)       # `add_expr(re) = add_expr_with(re, Semantic)`: look at the worker
         rec = [c for c in b.calls if c.callee and c.callee.target == b.id and not b.blocks[c.bb]["cleanup"]]
         last = [c for c in b.calls if c.callee and c.callee.name == fin and c.callee.target != b.id and not b.blocks[c.bb]["cleanup"]]
+        if not rec:
+            # higher-order form: the recursion lives in a closure handed to a node-rebuilding helper together with the node and
+            # its children; the helper walks the children in order (its own loop), the node is handled afterwards
+            crec = [c for cb in b.closures for c in cb.calls if c.callee and c.callee.target == b.id and not cb.blocks[c.bb]["cleanup"]]
+            cons = []
+            for c in crec:
+                pc = c.body.creation
+                if pc is None:
+                    continue
+                parent, cbb, csi, _ = pc
+                cl_local = parent.blocks[cbb]["stmts"][csi]["lhs"]["l"]
+                for x in parent.calls:
+                    if x.callee and x.callee.target in crate.bodies and any((mir.op_place(a) or {}).get("l") == cl_local for a in x.args) and not parent.blocks[x.bb]["cleanup"]:
+                        cons.append(x)
+            ok = len(crec) == 1 and len(cons) == 1 and len(last) == 1
+            if ok:
+                x = cons[0]
+                argr = [b.role_of_operand(a) for a in x.args]
+                ok = any(role_mentions_field(r, "children") for r in argr) and any(role_mentions_field(r, "node") or role_mentions_param(r, "n") for r in argr)
+                helper = crate.bodies[x.callee.target]
+                hl = [l for l in C.iterator_loops(helper)]
+                ok = ok and len(hl) == 1 and b.dominated_by(last[0].bb, [x.bb]) and role_mentions_call(b.role_of_operand(last[0].args[1]), helper.name)
+            ctx.check(ok, "shape:" + what, "%s rebuilds the node through a helper that walks the children in order (recursing on each), then handles the node" % what,
+                      "%s no longer has one recursive call and one final %s" % (what, fin), where_of(b))
+            continue
         ctx.check(len(rec) == 1 and len(last) == 1, "shape:" + what, "%s recurses on the children and finishes with %s(node)" % (what, fin), "%s no longer has one recursive call and one final %s" % (what, fin), where_of(b))
         if len(rec) != 1 or len(last) != 1:
             continue
